@@ -2,11 +2,15 @@ package props
 
 import (
 	"fmt"
+	"os"
 	"reflect"
 	"sort"
+	"strings"
 	"time"
 
 	z "github.com/Oudwins/zog"
+	"github.com/Oudwins/zog/parsers/zjson"
+	"github.com/Oudwins/zog/zenv"
 
 	"zogverif/internal/core"
 	"zogverif/internal/gen"
@@ -519,6 +523,17 @@ func c04Check(c *core.Ctx, root *spec.Node, mode ref.Mode, data any, val any, ce
 }
 
 func (c04) RunCase(c *core.Ctx) {
+	if c.Case%500 == 77 {
+		c.Eval(3)
+		if problem := dWideAndDeep(); problem != "" && strings.HasPrefix(problem, "Parse") {
+			c.Violation("absent-value-mishandled|deep-record", map[string]any{"schema": "node = {val: Int().Required(), tag: String().Default(dflt), next: Ptr(node)}", "observed": problem})
+			return
+		}
+		if problem := c04Fronts(); problem != "" {
+			c.Violation("absent-value-mishandled|front-end-record", map[string]any{"observed": problem})
+			return
+		}
+	}
 	if c.Case >= c04TableCases() {
 		c04Random(c)
 		return
@@ -591,4 +606,38 @@ func c04Random(c *core.Ctx) {
 		c.NonTrivial(fpf("rnd|%s|%s", n.Source(), obs.Render(obs.Norm(data))))
 	}
 	c.Count("random_nestings", 1)
+}
+
+// c04Fronts: a record that is present but whose members are all absent - environment variables behind a top-level Ptr(Struct), a JSON
+// document whose members are all null - is a present record: the pointer is allocated, defaults apply, required fields are reported
+// (under the key their source tag names).
+func c04Fronts() string {
+	type cfg struct {
+		Host string `env:"C04_HOST" json:"host_name"`
+		Port int    `env:"C04_PORT" json:"port_no"`
+		Mode string `env:"C04_MODE" json:"mode"`
+	}
+	mk := func() *z.PointerSchema {
+		return z.Ptr(z.Struct(z.Schema{"host": z.String().Required(), "port": z.Int().Default(8080), "mode": z.String()}))
+	}
+	os.Setenv("C04_MODE", "fast")
+	defer os.Unsetenv("C04_MODE")
+	var p *cfg
+	m := mk().NotNil().Parse(zenv.NewDataProvider(), &p)
+	if p == nil || p.Port != 8080 || p.Mode != "fast" || dKeys(m) != "C04_HOST" {
+		return fmt.Sprintf("Ptr(Struct{host: Required, port: Default(8080), mode}).NotNil() from the environment (C04_MODE=fast): destination %+v, issue keys [%s]; want an allocated struct with port 8080, mode fast and one issue at C04_HOST", p, dKeys(m))
+	}
+	for _, doc := range []string{`{"host_name":null,"port_no":null}`, `{"mode":null}`} {
+		var q *cfg
+		m = mk().Parse(zjson.Decode(strings.NewReader(doc)), &q)
+		if q == nil || q.Port != 8080 || dKeys(m) != "host_name" {
+			return fmt.Sprintf("Ptr(Struct{host: Required, port: Default(8080), mode}) from the JSON document %s: destination %+v, issue keys [%s]; want an allocated struct with port 8080 and one issue at host_name", doc, q, dKeys(m))
+		}
+		var d cfg
+		m = mk().Parse(zjson.Decode(strings.NewReader(doc)), ptr(&d))
+		if d.Port != 8080 || dKeys(m) != "host_name" {
+			return fmt.Sprintf("the same through a non-nil destination pointer, document %s: destination %+v, issue keys [%s]", doc, d, dKeys(m))
+		}
+	}
+	return ""
 }
